@@ -256,6 +256,19 @@ fn names(n: usize, rot: usize) -> Vec<String> {
     (0..n).map(|i| format!("N{:02}", (i + rot) % n)).collect()
 }
 
+/// naming styles of the items: the ordering must not depend on how a type name is spelled
+const NAME_STYLES: [&str; 4] = ["Pascal", "lower_snake", "leading-underscore", "lower-first-camel"];
+fn styled_names(n: usize, style: &str) -> Vec<String> {
+    (0..n)
+        .map(|i| match style {
+            "lower_snake" => format!("n{i:02}_t"),
+            "leading-underscore" => format!("_N{i:02}"),
+            "lower-first-camel" => format!("iN{i:02}Dev"),
+            _ => format!("N{i:02}"),
+        })
+        .collect()
+}
+
 fn family_graph(fam: usize, n: usize) -> Vec<Vec<usize>> {
     let mut e = vec![Vec::new(); n];
     match fam {
@@ -330,7 +343,8 @@ pub fn run(args: &[String]) -> i32 {
                 let edges = gen_edges(ch, n);
                 let carrier = *ch.pick("carrier", &CARRIERS);
                 let lang = *ch.pick("lang", &LANGS);
-                let g = Graph { n, edges, names: names(n, 0), kinds: vec!["struct"; n], carrier, renamed: None };
+                let style = *ch.pick("name_style", &NAME_STYLES);
+                let g = Graph { n, edges, names: styled_names(n, style), kinds: vec!["struct"; n], carrier, renamed: None };
                 check_graph(&g, lang, &ch.choices(), "all-digraphs-structs", acc);
             },
             Mode::Product,
@@ -338,7 +352,7 @@ pub fn run(args: &[String]) -> i32 {
             report::threads(),
             u64::MAX,
         );
-        merge(&mut rep, &format!("all_digraphs_n{n}_structs_all_carriers"), accs, &stats, json!({"nodes": n, "edge_sets": 1u64 << (n * n), "carriers": CARRIERS, "languages": 5}));
+        merge(&mut rep, &format!("all_digraphs_n{n}_structs_all_carriers"), accs, &stats, json!({"nodes": n, "edge_sets": 1u64 << (n * n), "carriers": CARRIERS, "name_styles": NAME_STYLES, "languages": 5}));
     }
     // 2. every digraph on n ≤ 3 nodes × every node-kind assignment (alias/const nodes: out-degree ≤ 1) × serde-renamed target
     for n in 2..=3usize {
